@@ -113,8 +113,10 @@ class RequestHandler:
                         break  # no more messages to process
                 except DecodeError as err:
                     # we have to decode 'origin' here
-                    # use latin-1, as utf-8 or ascii may lead to encoding errors
-                    msg = err.raw_msg.decode('latin-1').split(' ', 3) + [
+                    # strip as decode_msg does and replace undecodable bytes,
+                    # so that the error reply echoes action and specifier of
+                    # the request and is valid utf-8
+                    msg = err.raw_msg.strip().decode('utf-8', 'replace').split(' ', 2) + [
                         None
                     ]  # make sure len(msg) > 1
                     result = (
